@@ -88,8 +88,8 @@ theorem flag_wiring :
        ("ignore-missing-services", "servicesExistActive", true, "MustGetStepValidateServicesExist")] ∧
     Generated.getterService.lookup "GetStepValidateParamsExist" = some "stepOutputParamsExist" ∧
     Generated.getterService.lookup "GetStepValidateServicesExist" = some "stepOutputServicesExist" ∧
-    (Generated.wiring.lookup "stepOutputParamsExist").map (·.2.1) = some ["!value output.ValidateParamsExist", "=Missing parameters"] ∧
-    (Generated.wiring.lookup "stepOutputServicesExist").map (·.2.1) = some ["!value output.ValidateServicesExist", "=Missing services"] := by
+    Generated.argsAre ((Generated.wiring.lookup "stepOutputParamsExist").map (·.2.1)) ["!value output.ValidateParamsExist", "=Missing parameters"] = true ∧
+    Generated.argsAre ((Generated.wiring.lookup "stepOutputServicesExist").map (·.2.1)) ["!value output.ValidateServicesExist", "=Missing services"] = true := by
   decide
 
 end GM.C16
